@@ -615,18 +615,37 @@ impl Run {
             "close" => {
                 self.insts[i] = None;
             }
-            // C17: hold the marker persister thread of the CURRENT instance between taking its snapshot and
-            // writing it (gate `tc_before_persist`); only the first thread that arrives is held.
+            // C17: hold marker persister threads at the gate `tc_before_persist` (after the snapshot, before
+            // persist_updates). Default: only the first thread that arrives is held (scenario family `latep`).
+            // `all: true`: EVERY thread that arrives while armed takes the next ticket (0,1,2,...) and parks.
             "hold_persister" => {
-                persister_gate::arm();
+                persister_gate::arm(op["all"].as_bool().unwrap_or(false));
             }
-            // wait (bounded) until a persister is parked at the gate
+            // wait (bounded) until `n` threads have arrived at the gate in total (default 1)
             "await_persister" => {
-                let ok = persister_gate::await_parked(op["ms"].as_u64().unwrap_or(300));
-                self.emit(json!({"ev":"note","what":"persister_parked","ok":ok}));
+                let n = op["n"].as_u64().unwrap_or(1);
+                let ok = persister_gate::await_arrived(n, op["ms"].as_u64().unwrap_or(300));
+                self.emit(json!({"ev":"note","what":"persister_parked","ok":ok,"n":n,"arrived":persister_gate::arrived()}));
             }
+            // `ticket: k`: release exactly that thread and wait (bounded) until it has passed `tc_after_persist`;
+            // without a ticket: release everything and disarm
             "release_persister" => {
-                persister_gate::release(op["ms"].as_u64().unwrap_or(40));
+                if let Some(k) = op["ticket"].as_u64() {
+                    let ok = persister_gate::release_ticket(k, op["ms"].as_u64().unwrap_or(2000));
+                    self.emit(json!({"ev":"note","what":"persister_released","ticket":k,"ok":ok}));
+                } else {
+                    persister_gate::release(op["ms"].as_u64().unwrap_or(40));
+                }
+            }
+            // gate bookkeeping and the decoded marker file, as notes (no obligation for the contract)
+            "gate_stats" => {
+                let (arrived, passed) = (persister_gate::arrived(), persister_gate::passed());
+                self.emit(json!({"ev":"note","what":"gate_stats","arrived":arrived,"passed":passed}));
+            }
+            "marker_file" => {
+                let ic = self.cfg.insts[i].clone();
+                let m = marker_file::read(&self.base.join(&ic.dir));
+                self.emit(json!({"ev":"note","what":"marker_file","m":m}));
             }
             "reopen" => {
                 // proc = "same": drop and reopen here; "new" is handled by the caller
@@ -828,46 +847,163 @@ pub fn run_continuation(spec_path: &str) -> i32 {
 }
 
 
-/// Gate for the marker persister thread (engine label `tc_before_persist`), used by scripted C17 scenarios.
+/// Gate for the marker persister threads (engine labels `tc_before_persist` / `tc_after_persist`), used by the
+/// scripted C17 scenarios and by the replay of MarkerStore behaviours.
 pub mod persister_gate {
+    use std::cell::Cell;
+    use std::collections::BTreeSet;
     use std::sync::atomic::{AtomicBool, Ordering};
+    use std::sync::Mutex;
     use std::time::{Duration, Instant};
     use walrus_rust::wal::verif;
 
-    static ARMED: AtomicBool = AtomicBool::new(false);
-    static PARKED: AtomicBool = AtomicBool::new(false);
+    /// mode 0: not armed; 1: hold the first arrival only; 2: every arrival takes a ticket and parks
+    struct Gate {
+        mode: u8,
+        epoch: u64,
+        next: u64,
+        released: BTreeSet<u64>,
+        passed: BTreeSet<u64>,
+    }
+    static GATE: Mutex<Gate> = Mutex::new(Gate { mode: 0, epoch: 0, next: 0, released: BTreeSet::new(), passed: BTreeSet::new() });
     static INSTALLED: AtomicBool = AtomicBool::new(false);
+    thread_local! {
+        /// (epoch, ticket) of a thread that was parked and has not passed `tc_after_persist` yet
+        static MINE: Cell<Option<(u64, u64)>> = const { Cell::new(None) };
+    }
 
     fn hook(label: &'static str) {
-        if label == "tc_before_persist" && ARMED.load(Ordering::SeqCst) && !PARKED.swap(true, Ordering::SeqCst) {
+        if label == "tc_before_persist" {
+            let (epoch, ticket) = {
+                let mut g = GATE.lock().unwrap();
+                if g.mode == 0 || (g.mode == 1 && g.next > 0) {
+                    return;
+                }
+                let t = g.next;
+                g.next += 1;
+                (g.epoch, t)
+            };
+            MINE.with(|m| m.set(Some((epoch, ticket))));
             let t0 = Instant::now();
             // never hold longer than 5 s (a scenario that forgets to release must not hang the driver)
-            while ARMED.load(Ordering::SeqCst) && t0.elapsed() < Duration::from_secs(5) {
+            while t0.elapsed() < Duration::from_secs(5) {
+                {
+                    let g = GATE.lock().unwrap();
+                    if g.mode == 0 || g.epoch != epoch || g.released.contains(&ticket) {
+                        break;
+                    }
+                }
                 std::thread::sleep(Duration::from_micros(200));
+            }
+        } else if label == "tc_after_persist" {
+            if let Some((epoch, ticket)) = MINE.with(|m| m.take()) {
+                let mut g = GATE.lock().unwrap();
+                if g.epoch == epoch {
+                    g.passed.insert(ticket);
+                }
             }
         }
     }
 
-    pub fn arm() {
+    pub fn arm(all: bool) {
         if !INSTALLED.swap(true, Ordering::SeqCst) {
             verif::set_sched_hook(Some(Box::new(hook)));
         }
-        PARKED.store(false, Ordering::SeqCst);
-        ARMED.store(true, Ordering::SeqCst);
+        let mut g = GATE.lock().unwrap();
+        g.epoch += 1;
+        g.next = 0;
+        g.released.clear();
+        g.passed.clear();
+        g.mode = if all { 2 } else { 1 };
     }
 
-    pub fn await_parked(ms: u64) -> bool {
+    pub fn arrived() -> u64 {
+        GATE.lock().unwrap().next
+    }
+
+    pub fn passed() -> u64 {
+        GATE.lock().unwrap().passed.len() as u64
+    }
+
+    pub fn await_arrived(n: u64, ms: u64) -> bool {
         let t0 = Instant::now();
-        while !PARKED.load(Ordering::SeqCst) && t0.elapsed() < Duration::from_millis(ms) {
-            std::thread::sleep(Duration::from_micros(500));
+        while arrived() < n && t0.elapsed() < Duration::from_millis(ms) {
+            std::thread::sleep(Duration::from_micros(300));
         }
-        PARKED.load(Ordering::SeqCst)
+        arrived() >= n
     }
 
+    /// Releases exactly the thread holding `ticket`; true once it has passed `tc_after_persist`.
+    pub fn release_ticket(ticket: u64, ms: u64) -> bool {
+        {
+            let mut g = GATE.lock().unwrap();
+            if ticket >= g.next {
+                return false;
+            }
+            g.released.insert(ticket);
+        }
+        let t0 = Instant::now();
+        loop {
+            if GATE.lock().unwrap().passed.contains(&ticket) {
+                return true;
+            }
+            if t0.elapsed() >= Duration::from_millis(ms) {
+                return false;
+            }
+            std::thread::sleep(Duration::from_micros(200));
+        }
+    }
+
+    /// Releases every parked thread and disarms the gate.
     pub fn release(settle_ms: u64) {
-        let was = ARMED.swap(false, Ordering::SeqCst);
+        let was = {
+            let mut g = GATE.lock().unwrap();
+            let was = g.mode != 0;
+            g.mode = 0;
+            was
+        };
         if was {
             std::thread::sleep(Duration::from_millis(settle_ms));
+        }
+    }
+}
+
+/// The marker file of a data directory, decoded (same archived layout as the engine's private
+/// `HashMap<String, CleanMarkerRecord>`): {topic: [generation, is_clean]}.
+pub mod marker_file {
+    use rkyv::{Archive, Deserialize, Serialize};
+    use serde_json::{json, Value};
+    use std::collections::HashMap;
+    use std::path::Path;
+
+    #[derive(Archive, Deserialize, Serialize, Debug, Clone)]
+    #[archive(check_bytes)]
+    pub struct Rec {
+        pub generation: u64,
+        pub is_clean: bool,
+    }
+
+    pub fn read(dir: &Path) -> Value {
+        let path = dir.join("topic_clean_index.db");
+        let bytes = match std::fs::read(&path) {
+            Ok(b) => b,
+            Err(_) => return json!({}),
+        };
+        if bytes.is_empty() {
+            return json!({});
+        }
+        let mut aligned = rkyv::AlignedVec::with_capacity(bytes.len());
+        aligned.extend_from_slice(&bytes);
+        match rkyv::check_archived_root::<HashMap<String, Rec>>(&aligned[..]) {
+            Ok(archived) => {
+                let m: HashMap<String, Rec> = archived.deserialize(&mut rkyv::Infallible).unwrap_or_default();
+                let mut o = serde_json::Map::new();
+                for (k, r) in m {
+                    o.insert(k, json!([r.generation, r.is_clean]));
+                }
+                Value::Object(o)
+            }
+            Err(_) => json!({"_undecodable": [bytes.len(), false]}),
         }
     }
 }
